@@ -60,10 +60,22 @@ loose section), both built with the model's API, meet every hypothesis (`exFlat_
 WHY THE EXTRA HYPOTHESES (each excludes a case where the REAL code does not reproduce the file; replayed with
 `check.py C06 --replay`, model and code agree): members listed in descending index order (third save returns false);
 an empty NOBITS member at a segment's end (dropped from the segment by load, laid out as loose section); an SHF_TLS
-section that is a member of a PT_LOAD only (load adds TLS sections to PT_TLS segments only: p_filesz 0x10 -> 0x05) -
-the last one is inside the documented writer domain and reported as a finding CANDIDATE (candidates/
-c06-tls-member-of-load.case), not registered.  `Compose.SaveLoadSaveStatement` (FlatDomain + ResaveOk only) is therefore
-too weak as first written; `saveLoadSave_flat_statement` is the proved form.
+section that is a member of a PT_LOAD (load adds TLS sections to PT_TLS segments only: p_filesz 0x10 -> 0x05) -
+the last one is inside the documented writer domain: FINDING F17, see below.  `Compose.SaveLoadSaveStatement` (FlatDomain +
+ResaveOk only) is therefore too weak as first written; `saveLoadSave_flat_statement` is the proved form.
+PARTIAL - FINDING F17 (open): save . load . save is proved for objects whose segment members carry SHF_TLS exactly if the
+segment is a PT_TLS; the trigger - a thread-local section (`.tdata`) that is a member of a PT_LOAD, with or without a
+PT_TLS nested over it, i.e. the arrangement of every linked program with thread-local data (tests/elf_examples/
+x86_64_static) - is excluded exactly by `Compose.MemberDomain`'s TLS clause (for nested segments by the checked
+`membersRecomputedInB`).  elfio::load_segments ("If it is a TLS segment, add TLS sections only and vice versa") drops such
+a section from the PT_LOAD's member list, the next save lays it out elsewhere and the file is not reproduced.
+Machine-checked witnesses (Props/F17.lean; kernel evaluation of the model's save, load, save on objects built with its
+API = corpus/c06/f17-*.case): `F17.save_load_save_tls_witness` (PT_LOAD only: all three steps succeed, the files differ,
+p_filesz 0x10 -> 0x05), `F17.save_load_save_tls_nested_witness` (PT_LOAD + nested PT_TLS: PT_TLS p_offset 0x1008 -> 0x1018),
+`F17.tls_witness_outside_MemberDomain` (both objects violate MemberDomain by its TLS clause),
+`F17.tls_witness_domain_otherwise` (the first meets every OTHER hypothesis of save_load_save_flat).  Registered in
+known_findings.json (`save-load-save:tls-member`); not repaired: the membership rule is the one property C02 states
+("thread-local sections only in thread-local segments"), a writer-side repair is not small.
 NESTED SEGMENTS: `save_load_save_nested_input` / `save_load_save_of_members_nested` - the same conclusion for objects
 whose segments are flat or nested (`NestedDomain selE selN`, see families/c20.py), every hypothesis decidable and on the
 input object; here the equality of recomputed and declared member lists is a CHECKED hypothesis (`membersRecomputedInB o
@@ -78,7 +90,11 @@ Correspondence: family load.
 Oracle: bytes of the first save == bytes of a second save of the same object; bytes of
 save(load(save(obj))) == bytes of save(obj).  Known open finding F13 (address-less NOBITS member with
 an alignment gap: the first save advances the file cursor by the gap, later saves do not) is keyed by
-its trigger and reported as KNOWN-FINDING; any other difference is a violation.
+its trigger and reported as KNOWN-FINDING; so is F17 (`save-load-save:tls-member`: the saved file / the program has an
+SHF_TLS section inside a non-TLS segment; classified only when F13's trigger is absent, and only for the
+save-load-save half - a save-twice difference never gets it); any other difference is a violation.
+Generators: writercommon.gen_program (never sets SHF_TLS) and gen_tls_program (a `.tdata` among a PT_LOAD's members,
+with / without a nested PT_TLS, 4 configurations).
 """
 from families.writercommon import *
 from families import c03 as _c03
@@ -149,10 +165,15 @@ THEOREMS = ["ElfioVerif.C06.save_twice_witness",
             "ElfioVerif.Compose.saveLoadSave_flat_statement",
             "ElfioVerif.Compose.exFlat_resave",
             "ElfioVerif.Compose.exTwo_resave",
-            "ElfioVerif.Compose.ExOk.saveLoadSave"]
-EXTRA_IMPORTS = ["ElfioVerif.Props.Compose", "ElfioVerif.Props.C06Runs", "ElfioVerif.Props.Compose2"]
+            "ElfioVerif.Compose.ExOk.saveLoadSave",
+            "ElfioVerif.F17.save_load_save_tls_witness",
+            "ElfioVerif.F17.save_load_save_tls_nested_witness",
+            "ElfioVerif.F17.tls_witness_outside_MemberDomain",
+            "ElfioVerif.F17.tls_witness_domain_otherwise"]
+EXTRA_IMPORTS = ["ElfioVerif.Props.Compose", "ElfioVerif.Props.C06Runs", "ElfioVerif.Props.Compose2", "ElfioVerif.Props.F17"]
 SITES = ["save_", "lsws", "lst_", "lseg", "wsd"]
-RULE = ("writer-domain programs x 4 configurations: save, save again, reload (eager or lazy), save; plus "
+RULE = ("writer-domain programs (incl. thread-local data inside a PT_LOAD with/without nested PT_TLS) x 4 configurations: "
+        "save, save again, reload (eager or lazy), save; plus "
         "well-formed bundled examples: load, save, reload, save; non-trivial = first save succeeded and the "
         "object has >= 1 segment or >= 3 sections; distinct by md5")
 ASSUMPTIONS = ["file size < 2^32 (ELF32) / 2^63"]
@@ -176,6 +197,12 @@ def gen_cases(rng, tier):
         if elfspec.wellformed(b):
             yield {"id": f"ex-{f}", "lines": [f"load {hx(b)} lazy=0 kind=str", "save", "save", "reload lazy=0", "save"],
                    "meta": {"example": f, "f13": False}}
+    # thread-local data among a PT_LOAD's members, with / without a PT_TLS nested over it (finding F17's trigger)
+    for i in range(24 if tier == "quick" else 240):
+        cls, enc = CFGS[i % 4]
+        p = gen_tls_program(rng, cls, enc, tls_seg=(i // 4) % 2 == 0)
+        lines = to_lines(p) + ["save", "save", f"reload lazy={rng.choice([0, 1])}", "save"]
+        yield {"id": f"tls{i}", "lines": lines, "meta": {"prog": _c03.jsonable(p), "f13": False, "tls": True}}
 
 
 def oracle(case, out):
@@ -195,9 +222,14 @@ def oracle(case, out):
                   "what": "a second save of the same object produces different bytes"
                           + (" (address-less NOBITS member behind an alignment gap)" if f13 else "")})
     elif not ok3 or b3 != b1:
-        v.append({"signature": "save-load-save" + (":nobits-gap" if f13 else ""),
+        # classification order: F13's trigger (a property of the construction program) first and unchanged; F17's
+        # trigger only on programs / images WITHOUT it, so neither known finding can hide under the other's
+        # signature; a difference with neither trigger is a plain `save-load-save` violation
+        tls = not f13 and tls_member(case["meta"].get("prog"), b1)
+        v.append({"signature": "save-load-save" + (":nobits-gap" if f13 else ":tls-member" if tls else ""),
                   "what": "load + save of a file produced by save() does not reproduce it"
-                          + (" (address-less NOBITS member behind an alignment gap)" if f13 else "")})
+                          + (" (address-less NOBITS member behind an alignment gap)" if f13 else
+                             " (an SHF_TLS section inside a non-TLS segment: after load it is no member of it, F17)" if tls else "")})
     return v
 
 
